@@ -120,6 +120,9 @@ def run(ctx):
                 callers |= own if (who not in known) else {who}
     allowed = {"Expression::<'a>::search"} | {f"<functions::{x} as functions::Function>::evaluate" for x in ("MapFn", "SortByFn", "MaxByFn", "MinByFn")}
     ctx.check(callers == allowed, "context-flow", "who-may-evaluate", f"interpret is called only from search and the four expression-reference builtins (found extra {sorted(callers - allowed)}, missing {sorted(allowed - callers)})")
+    # the Slice arm's value is the slice helper's: which elements it selects is part of what the arm denotes (shared with C07)
+    from .c07 import check_slice_routine
+    ctx.attempt("check_slice_routine", check_slice_routine, ctx, lib)
     # parser side
     ctx.attempt("check_parser_side", check_parser_side, ctx, lib)
     # nothing else is read: effect analysis verdict
